@@ -3,6 +3,7 @@
 mod conserve;
 mod ledger;
 mod preds;
+mod text;
 
 use mcx::run::{Tier, machinery_failure};
 
@@ -26,7 +27,12 @@ fn main() {
     let code = match prop {
         "C01" => ledger::c01(tier),
         "C02" => ledger::c02(tier),
+        "C03" => ledger::c03(tier),
         "C05" => ledger::c05(tier),
+        "C09" => ledger::c09(tier),
+        "C10" => ledger::c10(tier),
+        "C11" => ledger::c11(tier),
+        "C12" => ledger::c12(tier),
         other => machinery_failure(&format!("mc-core has no engine for {other}")),
     };
     std::process::exit(code);
